@@ -106,3 +106,29 @@ func init() {
 			Old: "\tdefault:\n\t\terr = errInvalidToken\n", New: "\tdefault:\n", Rule: "KIND-1"},
 	)
 }
+
+func init() {
+	addMutants(
+		// ---- C02/C07: FP, STALE-3
+		Mutant{ID: "fp1-int-drops-increment", Props: []string{"C02"}, File: "arshal_default.go", Func: "makeIntArshaler",
+			Old: "\t\t\txe.Tokens.Last.Increment()\n", New: "", Rule: "FP-1"},
+		Mutant{ID: "fp2-emptymap-drops-name-guard", Props: []string{"C02"}, File: "arshal_default.go", Func: "makeMapArshaler",
+			Old: "if optimizeCommon && !mo.Flags.Get(jsonflags.AnyWhitespace) && !xe.Tokens.Last.NeedObjectName() {", New: "if optimizeCommon && !mo.Flags.Get(jsonflags.AnyWhitespace) {", Rule: "FP-2"},
+		Mutant{ID: "fp3-int-drops-whitespace-guard", Props: []string{"C02", "C07"}, File: "arshal_default.go", Func: "makeIntArshaler",
+			Old: "if optimizeCommon && !mo.Flags.Get(jsonflags.AnyWhitespace) && !stringify {", New: "if optimizeCommon && !stringify {", Rule: "FP-3"},
+		Mutant{ID: "fp4-float-returns-before-needflush", Props: []string{"C02", "C07"}, File: "arshal_default.go", Func: "makeFloatArshaler",
+			Old: "\t\t\txe.Tokens.Last.Increment()\n\t\t\tif xe.NeedFlush() {\n\t\t\t\treturn xe.Flush()\n\t\t\t}\n\t\t\treturn nil", New: "\t\t\txe.Tokens.Last.Increment()\n\t\t\treturn nil", Rule: "FP-4"},
+		Mutant{ID: "fp2-stringify-loses-name-disjunct", Props: []string{"C02"}, File: "arshal_default.go", Func: "makeUintArshaler",
+			Old: "stringify := xe.Tokens.Last.NeedObjectName() || mo.Flags.Get(jsonflags.StringifyNumbers|jsonflags.StringTag)", New: "stringify := mo.Flags.Get(jsonflags.StringifyNumbers | jsonflags.StringTag)", Rule: "FP-2"},
+		Mutant{ID: "fp2-struct-name-without-disable", Props: []string{"C02", "C08"}, File: "arshal_default.go", Func: "makeStructArshaler",
+			Old: "\t\txe.Tokens.Last.DisableNamespace() // we manually ensure unique names below\n", New: "", Rule: "FP-2"},
+		Mutant{ID: "fp2-struct-name-no-offset", Props: []string{"C02", "C16"}, File: "arshal_default.go", Func: "makeStructArshaler",
+			Old: "\t\t\t\txe.Names.ReplaceLastQuotedOffset(n0)\n", New: "\t\t\t\t_ = n0\n", Rule: "FP-2"},
+		Mutant{ID: "fp3-bool-delim-on-closing-kind", Props: []string{"C02"}, File: "arshal_default.go", Func: "makeBoolArshaler",
+			Old: "xe.Tokens.MayAppendDelim(xe.Buf, 't')", New: "xe.Tokens.MayAppendDelim(xe.Buf, '}')", Rule: "FP-3"},
+		Mutant{ID: "fp4-writetoken-no-flush", Props: []string{"C07"}, File: "jsontext/encode.go", Func: "encoderState.WriteToken",
+			Old: "\te.Buf = b\n\tif e.NeedFlush() {\n\t\treturn e.Flush()\n\t}\n\treturn nil", New: "\te.Buf = b\n\treturn nil", Rule: "FP-4"},
+		Mutant{ID: "stale3-struct-marshal-between-alias-and-store", Props: []string{"C02", "C07"}, File: "arshal_default.go", Func: "makeStructArshaler",
+			Old: "\t\t\t\tn0 := len(b) // offset before calling AppendQuote\n", New: "\t\t\t\tn0 := len(b) // offset before calling AppendQuote\n\t\t\t\tif err := enc.WriteValue(nil); err == nil {\n\t\t\t\t\tcontinue\n\t\t\t\t}\n", Rule: "STALE-3"},
+	)
+}
